@@ -289,7 +289,7 @@ func distCases(r *hx.Rand) {
 func sweepCases() {
 	total := hx.N(20000, 200000)
 	chunk := 1000
-	ts := []float64{1e-3, 0.05, 0.3, 0.9, 1.5, 1.7, 1.7320508, 1.75, 1.9, 2.5, 4, 9, 50}
+	ts := []float64{1e-9, 1e-6, 1e-3, 0.05, 0.3, 0.9, 1.5, 1.7, 1.7320508, 1.75, 1.9, 2.5, 4, 9, 50}
 	nchunks := (total + chunk - 1) / chunk
 	for c := 0; c < nchunks; c++ {
 		if c%nshards != shard {
